@@ -241,7 +241,12 @@ fn selfcheck(id: &str, args: &[String]) -> i32 {
     r
 }
 
-fn selfcheck_with<H: Harness>(h: &H, id: &str, seed: u64, runs: u64) -> i32 {
+fn h_name<H: Harness>(h: &H) -> &'static str {
+    h.name()
+}
+
+fn selfcheck_with<H: Harness>(h_: &H, id: &str, seed: u64, runs: u64) -> i32 {
+    let h = h_;
     use std::sync::atomic::{AtomicU64, Ordering};
     let workers = 16usize;
     // pass 1: hashes computed with `workers` threads in index order
@@ -286,6 +291,13 @@ fn selfcheck_with<H: Harness>(h: &H, id: &str, seed: u64, runs: u64) -> i32 {
         eprintln!("harness error: {bad} of {runs} runs are not deterministic");
         return 2;
     }
+    // digest over every run's event-log hash: equal across processes, worker counts and runs
+    let mut h = rng::Hasher::default();
+    for x in &a {
+        h.u64(x.0);
+        h.u64(x.1 as u64);
+    }
+    println!("selfcheck digest {} {}: {:016x}", h_name(h_), id, h.0);
     0
 }
 
